@@ -5,7 +5,7 @@ unsigned range [0, 2^b) or (for code that computes with signed quantities) the s
 Every add / sub / mul / shl whose exact result leaves both ranges is reported: that is an intermediate that wraps its
 word for some operand of the declared layout.  Selects on a comparison of a value against a constant refine that value
 in their branches (posmod, centred CRT lift).  Everything the domain does not model returns the full range (sound)."""
-from .values import Sym
+from .values import Sym, sym
 from .vals import is_int, signed
 
 
@@ -102,6 +102,43 @@ class Intervals:
             if a is None or b is None:
                 return self.full(bits)
             M = 1 << bits
+            if a[0] == a[1] and b[0] == b[1] and op in ('and', 'or', 'xor', 'urem', 'udiv', 'srem', 'sdiv', 'lshr', 'ashr'):
+                # both operands are single values: the operation is evaluated exactly on the words
+                x, y = a[0] % M, b[0] % M
+                sx, sy = (x - M if x >= M >> 1 else x), (y - M if y >= M >> 1 else y)
+                r = None
+                if op == 'and':
+                    r = x & y
+                elif op == 'or':
+                    r = x | y
+                elif op == 'xor':
+                    r = x ^ y
+                elif op == 'urem' and y:
+                    r = x % y
+                elif op == 'udiv' and y:
+                    r = x // y
+                elif op == 'srem' and sy:
+                    r = abs(sx) % abs(sy)
+                    r = -r if sx < 0 else r
+                elif op == 'sdiv' and sy:
+                    r = abs(sx) // abs(sy)
+                    r = -r if (sx < 0) != (sy < 0) else r
+                elif op == 'lshr' and y < bits:
+                    r = x >> y
+                elif op == 'ashr' and y < bits:
+                    r = sx >> y
+                if r is not None:
+                    return (r, r)
+            if op in ('add', 'sub'):
+                # t +- (c ? p : q): evaluated per branch under the refined environment (keeps the correlation between t and c)
+                for x, y, flip in ((e[2], e[3], False), (e[3], e[2], True)):
+                    if isinstance(y, Sym) and y.e[0] == 'sel' and not (flip and op == 'sub'):
+                        envt, envf = self.refine(y.e[1], env)
+                        if envt is not (env or {}) or envf is not (env or {}):
+                            ra = self.ev(sym(op, bits, x, y.e[2]) if not flip else sym(op, bits, y.e[2], x), envt)
+                            rb = self.ev(sym(op, bits, x, y.e[3]) if not flip else sym(op, bits, y.e[3], x), envf)
+                            if ra is not None and rb is not None:
+                                return (min(ra[0], rb[0]), max(ra[1], rb[1]))
             if op == 'add':
                 # adding a constant >= 2^(bits-1) is the two's-complement spelling of a subtraction
                 for x, y in ((a, b), (b, a)):
